@@ -84,8 +84,7 @@ Inductive akind := AByTag (tag : nat) | AByName (name : nat) | AByType.
 Record action := mkAction {
   a_id : nat;
   a_kind : akind;
-  a_type : nat;        (* T in func(T) / func( *T ) *)
-  a_ptr : bool;        (* the function takes *T *)
+  a_params : list (nat * bool);   (* the function's parameters: (type code of T, the parameter is *T) *)
   a_fillSet : bool;
   a_fill : bool
 }.
@@ -110,11 +109,14 @@ Record fstate := mkFstate { fs_skip : bool; fs_noSkip : bool; fs_whole : bool; f
 (* handleFieldFiller; None = addFieldFiller found no match between the field and the function *)
 Definition handle_action (path : list nat) (ft : ftype) (a : action) (st : fstate) : option fstate :=
   if fs_hard st then Some st else
-  if negb (a_type a =? type_code ft) then None else
-  let skip' := if a_fillSet a then (if fs_noSkip st then fs_skip st else negb (a_fill a))
-               else if a_ptr a then (if fs_noSkip st then fs_skip st else true)
-               else fs_skip st in
-  Some (mkFstate skip' (fs_noSkip st) (fs_whole st) (fs_hard st) (fs_acts st ++ [(a_id a, path, a_ptr a)])).
+  match field_param (type_code ft) (a_params a) 0 with
+  | None => None
+  | Some (_, ptr) =>
+    let skip' := if a_fillSet a then (if fs_noSkip st then fs_skip st else negb (a_fill a))
+                 else if ptr then (if fs_noSkip st then fs_skip st else true)
+                 else fs_skip st in
+    Some (mkFstate skip' (fs_noSkip st) (fs_whole st) (fs_hard st) (fs_acts st ++ [(a_id a, path, ptr)]))
+  end.
 
 Fixpoint handle_actions (path : list nat) (ft : ftype) (l : list action) (st : fstate) : option fstate :=
   match l with
@@ -125,9 +127,10 @@ Fixpoint handle_actions (path : list nat) (ft : ftype) (l : list action) (st : f
 Definition is_tag (a : action) (tv : nat) : bool := match a_kind a with AByTag t => t =? tv | _ => false end.
 Definition is_name (a : action) (nm : nat) : bool := match a_kind a with AByName n => n =? nm | _ => false end.
 (* byType[typeCode of the function's first input]: for a pointer model *T actions come before T actions *)
+Definition a_first (a : action) : nat * bool := match a_params a with p :: _ => p | [] => (0, false) end.
 Definition by_type (acts : list action) (ptrModel : bool) (t : nat) : list action :=
-  (if ptrModel then filter (fun a => match a_kind a with AByType => (a_type a =? t) && a_ptr a | _ => false end) acts else []) ++
-  filter (fun a => match a_kind a with AByType => (a_type a =? t) && negb (a_ptr a) | _ => false end) acts.
+  (if ptrModel then filter (fun a => match a_kind a with AByType => (fst (a_first a) =? t) && snd (a_first a) | _ => false end) acts else []) ++
+  filter (fun a => match a_kind a with AByType => (fst (a_first a) =? t) && negb (snd (a_first a)) | _ => false end) acts.
 
 Fixpoint tags_loop (acts : list action) (path : list nat) (ft : ftype) (tags : list nat) (st : fstate) : option fstate :=
   match tags with
